@@ -848,7 +848,7 @@ func fillSidx(sidx *SidxBox, refTrak *TrakBox, segDatas []segData, nonZeroEPT bo
 	}
 	sidx.Version = 1
 	sidx.Timescale = refTrak.Mdia.Mdhd.Timescale
-	sidx.ReferenceID = 1
+	sidx.ReferenceID = refTrak.Tkhd.TrackID
 	sidx.EarliestPresentationTime = ept
 	sidx.FirstOffset = 0
 	sidx.SidxRefs = make([]SidxRef, 0, len(segDatas))
